@@ -1,0 +1,209 @@
+//! Verification hooks (cargo feature `verif-hooks`, off by default).
+//!
+//! Nothing in this module is reachable unless the feature is enabled. The hooks let an
+//! external harness (a) replace the TCP dial by a scripted in-memory transport,
+//! (b) replace name resolution by a table of socket addresses, (c) observe labelled
+//! schedule points of the timeout watchdog and (d) read the effective settings of a
+//! session or request. They add no behaviour of their own.
+#![allow(dead_code)]
+
+use std::cell::RefCell;
+use std::collections::HashMap;
+use std::fmt;
+use std::io::{Read, Write};
+use std::net::SocketAddr;
+use std::sync::{Arc, Mutex, RwLock};
+use std::time::{Duration, Instant};
+
+use url::Url;
+
+use crate::streams::{BaseStream, ConnectInfo};
+use crate::Result;
+
+/// A scripted connection standing in for a TCP (or, for an https dial, decrypted TLS) stream.
+pub trait Transport: Read + Write + Send + fmt::Debug {}
+
+impl<T: Read + Write + Send + fmt::Debug> Transport for T {}
+
+/// What the client wanted to dial.
+#[derive(Debug, Clone)]
+pub struct DialRequest {
+    /// Scheme of the URL being dialled (the proxy's if there is one).
+    pub scheme: String,
+    /// Host being dialled, as `url::Host` displays it.
+    pub host: String,
+    /// Port being dialled.
+    pub port: u16,
+    /// Name a TLS session with the dialled peer would have been verified against (https dials only).
+    pub tls_name: Option<String>,
+    /// URL of the request.
+    pub url: Url,
+    /// Proxy selected for the request.
+    pub proxy: Option<Url>,
+    /// Overall deadline.
+    pub deadline: Option<Instant>,
+    /// Connect timeout.
+    pub connect_timeout: Duration,
+    /// Read timeout.
+    pub read_timeout: Duration,
+    /// `accept_invalid_certs` that would have been applied to the dial's TLS handshake.
+    pub accept_invalid_certs: bool,
+    /// `accept_invalid_hostnames` that would have been applied to the dial's TLS handshake.
+    pub accept_invalid_hostnames: bool,
+    /// Number of additional root certificates.
+    pub root_certificates: usize,
+}
+
+/// Dial factory: `None` falls through to the real network path.
+pub type DialFactory = Box<dyn FnMut(&DialRequest) -> Option<std::io::Result<Box<dyn Transport>>>>;
+
+thread_local! {
+    static FACTORY: RefCell<Option<DialFactory>> = const { RefCell::new(None) };
+    static DIALLED: RefCell<Option<std::io::Result<Box<dyn Transport>>>> = const { RefCell::new(None) };
+}
+
+/// Install (or remove) the dial factory of the calling thread.
+pub fn set_dial_factory(factory: Option<DialFactory>) {
+    FACTORY.with(|f| *f.borrow_mut() = factory);
+}
+
+pub(crate) fn intercepts(host: &url::Host<&str>, port: u16, scheme: &str, info: &ConnectInfo) -> bool {
+    let mut factory = match FACTORY.with(|f| f.borrow_mut().take()) {
+        Some(factory) => factory,
+        None => return false,
+    };
+    let req = DialRequest {
+        scheme: scheme.to_owned(),
+        host: host.to_string(),
+        port,
+        tls_name: if scheme == "https" { Some(host.to_string()) } else { None },
+        url: info.url.clone(),
+        proxy: info.proxy.cloned(),
+        deadline: info.deadline,
+        connect_timeout: info.base_settings.connect_timeout,
+        read_timeout: info.base_settings.read_timeout,
+        accept_invalid_certs: info.base_settings.accept_invalid_certs,
+        accept_invalid_hostnames: info.base_settings.accept_invalid_hostnames,
+        root_certificates: info.base_settings.root_certificates.0.len(),
+    };
+    let res = factory(&req);
+    FACTORY.with(|f| {
+        let mut slot = f.borrow_mut();
+        if slot.is_none() {
+            *slot = Some(factory);
+        }
+    });
+    match res {
+        Some(res) => {
+            DIALLED.with(|d| *d.borrow_mut() = Some(res));
+            true
+        }
+        None => false,
+    }
+}
+
+pub(crate) fn take_dialled() -> Result<BaseStream> {
+    let res = DIALLED
+        .with(|d| d.borrow_mut().take())
+        .expect("verif-hooks: no dialled transport");
+    Ok(BaseStream::Hooked(res?))
+}
+
+type ResolverTable = Mutex<Option<HashMap<String, Vec<SocketAddr>>>>;
+static RESOLVER: ResolverTable = Mutex::new(None);
+
+/// Make `host` resolve to `addrs` (port included in each address) for the whole process.
+pub fn set_resolver_override(host: &str, addrs: Option<Vec<SocketAddr>>) {
+    let mut table = RESOLVER.lock().unwrap();
+    let table = table.get_or_insert_with(HashMap::new);
+    match addrs {
+        Some(addrs) => {
+            table.insert(host.to_ascii_lowercase(), addrs);
+        }
+        None => {
+            table.remove(&host.to_ascii_lowercase());
+        }
+    }
+}
+
+pub(crate) fn resolve_override(host: &str) -> Option<Vec<SocketAddr>> {
+    let table = RESOLVER.lock().unwrap();
+    table.as_ref()?.get(&host.to_ascii_lowercase()).cloned()
+}
+
+/// Callback invoked at labelled schedule points.
+pub type SchedHook = Arc<dyn Fn(&'static str) + Send + Sync>;
+
+static SCHED: RwLock<Option<SchedHook>> = RwLock::new(None);
+
+/// Install (or remove) the process-wide schedule-point callback.
+pub fn set_sched_hook(hook: Option<SchedHook>) {
+    *SCHED.write().unwrap() = hook;
+}
+
+#[inline]
+pub(crate) fn sched_point(label: &'static str) {
+    let hook = SCHED.read().unwrap().clone();
+    if let Some(hook) = hook {
+        hook(label);
+    }
+}
+
+/// Read-only copy of the effective settings of a session, builder or prepared request.
+#[derive(Debug, Clone, PartialEq, Eq)]
+pub struct SettingsSnapshot {
+    /// Session-level headers.
+    pub headers: Vec<(String, Vec<u8>)>,
+    /// Header count limit.
+    pub max_headers: usize,
+    /// Redirect bound.
+    pub max_redirections: u32,
+    /// Redirect switch.
+    pub follow_redirects: bool,
+    /// Connect timeout.
+    pub connect_timeout: Duration,
+    /// Read timeout.
+    pub read_timeout: Duration,
+    /// Overall timeout.
+    pub timeout: Option<Duration>,
+    /// Certificate check waiver.
+    pub accept_invalid_certs: bool,
+    /// Host name check waiver.
+    pub accept_invalid_hostnames: bool,
+    /// Number of additional roots.
+    pub root_certificates: usize,
+    /// Name of the default charset, if any.
+    pub default_charset: Option<&'static str>,
+    /// Compression switch (true when the feature is absent).
+    pub allow_compression: bool,
+    /// Debug rendering of the proxy settings.
+    pub proxy_settings: String,
+}
+
+pub(crate) fn snapshot(settings: &crate::request::BaseSettings) -> SettingsSnapshot {
+    SettingsSnapshot {
+        headers: settings
+            .headers
+            .iter()
+            .map(|(k, v)| (k.as_str().to_owned(), v.as_bytes().to_vec()))
+            .collect(),
+        max_headers: settings.max_headers,
+        max_redirections: settings.max_redirections,
+        follow_redirects: settings.follow_redirects,
+        connect_timeout: settings.connect_timeout,
+        read_timeout: settings.read_timeout,
+        timeout: settings.timeout,
+        accept_invalid_certs: settings.accept_invalid_certs,
+        accept_invalid_hostnames: settings.accept_invalid_hostnames,
+        root_certificates: settings.root_certificates.0.len(),
+        #[cfg(feature = "charsets")]
+        default_charset: settings.default_charset.map(|c| c.name()),
+        #[cfg(not(feature = "charsets"))]
+        default_charset: None,
+        #[cfg(feature = "flate2")]
+        allow_compression: settings.allow_compression,
+        #[cfg(not(feature = "flate2"))]
+        allow_compression: true,
+        proxy_settings: format!("{:?}", settings.proxy_settings),
+    }
+}
